@@ -11,6 +11,8 @@ import (
 	"strconv"
 	"strings"
 	"time"
+
+	"golang.org/x/tools/go/ssa"
 )
 
 type EntryCfg struct {
@@ -31,6 +33,7 @@ type CheckCfg struct {
 	Outside    []string          `json:"outside_claim"`
 	ReplayPkg  map[string]string `json:"replay_pkg,omitempty"`
 	Prefix     []string          `json:"obligation_prefixes,omitempty"`
+	Stubs      map[string]string `json:"stubs,omitempty"` // environment stubs: real function -> harness function (listed in the evidence)
 	Sites      []string          `json:"nondeterminism_sites,omitempty"` // C06: the reviewed list of map-range/go/select/clock sites // only these obligations belong to the property (shared harnesses)
 }
 
@@ -167,6 +170,17 @@ func cmdCheck(args []string) int {
 		r := NewRun(l.prog, fn)
 		r.verbose = *verbose
 		r.seed = seed
+		for real, hf := range cfg.Stubs {
+			sf := l.findEntry(hf)
+			if sf == nil {
+				fmt.Printf("ERROR stub function %s not found\n", hf)
+				return 2
+			}
+			if r.stubs == nil {
+				r.stubs = map[string]*ssa.Function{}
+			}
+			r.stubs[real] = sf
+		}
 		if e.Unwind > 0 {
 			r.unwind = e.Unwind
 		}
